@@ -120,7 +120,7 @@ def solver_args(rng, mix):
 def function_twins(rng, rel):
     """thermodynamics, flux solver, helpers, ideal curve and its metrics: a (original) and b (relabelled / rebased)"""
     mix = gen.some_mixture(rng, p_builtin=0.6)
-    model = rng.choice(["NRTL", "UNIQUAC"])
+    model = gen.tstr(rng, rng.choice(["NRTL", "UNIQUAC"]))
     membrane = rp.make_membrane(rng, mix)
     a = solver_args(rng, mix)
     pa = pv.Pervaporation(membrane=membrane, mixture=mix)
@@ -153,7 +153,7 @@ def function_twins(rng, rel):
     kw = dict(precision=a["prec"], permeate_temperature=a["Tperm"], permeate_pressure=a["pperm"], calculation_type=model)
     # explicit permeances: the same NUMBER and unit label for a component in both runs (whatever the code does with
     # the unit, it must do it to the component the permeance belongs to)
-    pu = rng.choice([KG, KG, "SI", "GPU"])
+    pu = gen.tstr(rng, rng.choice([KG, KG, "SI", "GPU"]))
     out["perm_units"] = pu
     ja, jb, e5, e6 = both(
         lambda: [F(v) for v in pa.calculate_partial_fluxes(T, ca, first_component_permeance=pv.Permeance(a["P1"], pu),
@@ -246,7 +246,7 @@ def nonideal_curve_twin(rng):
     xw = rng.uniform(0.1, 0.6)
     ca = pv.Composition(p=xw, type="weight")
     cb = ca.to_molar(mix)
-    model = rng.choice(["NRTL", "UNIQUAC"])
+    model = gen.tstr(rng, rng.choice(["NRTL", "UNIQUAC"]))
     mode = rng.choice(["vac", "temp", "press"])
     kw = dict(diffusion_curve_set=cs, feed_temperature=T, delta_composition=rng.uniform(0.005, 0.05), number_of_steps=rng.randrange(2, 6),
               permeate_temperature=rng.uniform(200.0, T - 25.0) if mode == "temp" else None,
@@ -270,11 +270,23 @@ def nonideal_curve_twin(rng):
 def measurements_twin(rng):
     """measurement points extracted from a curve set given in mass fractions (a) or in the equivalent mole fractions (b)"""
     from pyvaporation.optimizer import Measurements
-    mix = gen.some_mixture(rng, p_builtin=0.6)
+    sc = rp.scenario(rng, kind=rng.choice(["nonideal_iso", "nonideal_noniso"]))
+    mix = sc["mix"]
     st = rng.getstate()
     csa = rp.make_curve_set(rng, mix, ctype="weight")
     rng.setstate(st)
     csb = rp.make_curve_set(rng, mix, ctype="molar")
+    if rng.random() < 0.5:
+        # the molar set has been USED before: a non-ideal process model (or the curve model) was run on it; what is extracted
+        # from it afterwards must still be the same points
+        try:
+            sc["curves"], sc["N"] = csb, rng.choice([1, 2])
+            sc.pop("dt", None)
+            perv = rp.prepare(rng, sc)
+            if perv is not None:
+                rp.run_process(perv, sc)
+        except Exception:  # noqa: BLE001
+            pass
 
     def ex(cs):
         m1 = Measurements.from_diffusion_curves_first(cs)
